@@ -250,6 +250,33 @@ func checkExtendedRealm(r *Reporter, p *Prog, pkg, typ string) {
 		return true
 	})
 	if !ok {
+		// the concatenation written out: own.WithRealm(x) where x is built in a buffer of its own -
+		// append(append(<fresh empty>, own realm...), realm...), in one expression or step by step
+		f := newFuncCFG(p, info, fd.Body, key)
+		recvName := recvIdentOf(fd).Name
+		for _, rpt := range f.FindOwn(func(n ast.Node) bool { _, isRet := n.(*ast.ReturnStmt); return isRet }) {
+			rs, _ := f.nodeAt(rpt).(*ast.ReturnStmt)
+			if rs == nil || len(rs.Results) != 1 {
+				continue
+			}
+			c, isCall := ast.Unparen(rs.Results[0]).(*ast.CallExpr)
+			if !isCall || len(c.Args) != 1 {
+				continue
+			}
+			se, isSel := ast.Unparen(c.Fun).(*ast.SelectorExpr)
+			if !isSel || se.Sel.Name != "WithRealm" || !isRecvIdent(info, fd, se.X) {
+				continue
+			}
+			parts, fresh := freshConcatParts(f, info, c.Args[0], rpt, 0)
+			if fresh && len(parts) == 2 && len(params) == 1 && objOfIdent(info, parts[1]) == params[0] {
+				if first := exprKey(parts[0]); first == recvName+".Realm()" || first == recvName+".realm" {
+					r.Pass("realm/extended", key, p.posStr(fd.Pos()), "WithRealm(<own realm followed by the extension, in a buffer of its own>)")
+					return
+				}
+			}
+		}
+	}
+	if !ok {
 		// a wrapper may instead delegate to the wrapped store's WithExtendedRealm exactly as its own
 		// WithRealm delegates to the wrapped store's WithRealm: the two methods have the same text up
 		// to that one method name (the wrapped store extends its own realm, which is the wrapper's)
@@ -1308,4 +1335,53 @@ func isSharedMap(f *FuncCFG, info *types.Info, c *ast.CallExpr, e ast.Expr) bool
 		pt = apt
 	}
 	return false
+}
+
+// freshConcatParts: e (evaluated at pt) is the concatenation of the returned parts written into a
+// buffer that belongs to this evaluation alone: ConcatBytes(a, b, ...), or appends onto a fresh empty
+// slice (make([]byte, 0, n), []byte{}, []byte(nil)) - nested in one expression or as successive
+// `v = append(v, x...)` statements. ok=false when some step appends onto a slice that existed before
+// (its spare capacity may be shared) or is not understood.
+func freshConcatParts(f *FuncCFG, info *types.Info, e ast.Expr, pt Point, depth int) (parts []ast.Expr, ok bool) {
+	if depth > 8 {
+		return nil, false
+	}
+	e = ast.Unparen(e)
+	switch x := e.(type) {
+	case *ast.CompositeLit:
+		if len(x.Elts) == 0 {
+			if _, isSlice := info.TypeOf(x).Underlying().(*types.Slice); isSlice {
+				return nil, true
+			}
+		}
+	case *ast.CallExpr:
+		k := rawKey(x.Fun)
+		switch {
+		case strings.HasSuffix(k, "ConcatBytes"):
+			return x.Args, true
+		case k == "make" && len(x.Args) >= 2 && isConstZero(info, ast.Unparen(x.Args[1])):
+			return nil, true
+		case k == "append" && len(x.Args) == 2 && x.Ellipsis.IsValid():
+			head, okh := freshConcatParts(f, info, x.Args[0], pt, depth+1)
+			if !okh {
+				return nil, false
+			}
+			return append(append([]ast.Expr{}, head...), x.Args[1]), true
+		}
+		// a conversion of nil: []byte(nil)
+		if tv, isT := info.Types[x.Fun]; isT && tv.IsType() && len(x.Args) == 1 && isNil(info, x.Args[0]) {
+			return nil, true
+		}
+	case *ast.Ident:
+		v, isVar := info.Uses[x].(*types.Var)
+		if !isVar || v.IsField() {
+			return nil, false
+		}
+		defs, fromEntry := f.ReachingDefs(pt, v)
+		if fromEntry || len(defs) != 1 || defs[0].Rhs == nil {
+			return nil, false
+		}
+		return freshConcatParts(f, info, defs[0].Rhs, defs[0].At, depth+1)
+	}
+	return nil, false
 }
